@@ -108,10 +108,11 @@ def trimmed(src, a, b):
 
 # ------------------------------------------------------------------------------------------- strategies
 SELECTORS = ['a', '.b', 'a:hover', 'a::before', '@media (min-width: 10px)', 'a[title="{;}"]', '&.x', '> li', 'a, b', 'ul li', '@include foo($a: 1)', 'a:not(.b)',
-             '@media screen and (max-width:100px)', '#id.cls', 'a /* {;} */ b', '@supports (display: grid)', '&:nth-child(2n+1)', 'input[type="text"]', "a[href='}']", '.a::after', '@font-face', 'a:hover, a:focus', 'li:first-child:hover', 'a:not(.b):hover', 'a:hover:focus::after', 'a : hover', ':root', '::selection', ':host(.x) a', ':not(p)::before']
+             '@media screen and (max-width:100px)', '#id.cls', 'a /* {;} */ b', '@supports (display: grid)', '&:nth-child(2n+1)', 'input[type="text"]', "a[href='}']", '.a::after', '@font-face', 'a:hover, a:focus', 'li:first-child:hover', 'a:not(.b):hover', 'a:hover:focus::after', 'a : hover', ':root', '::selection', ':host(.x) a', ':not(p)::before', 'a[title="it\'s"]', "q[cite='\"{']"]
 NAMES = ['color', 'margin', '$v', '--x', 'background', 'a-b', '@var', 'content', 'font-family', '-webkit-x', '*zoom']
 TOKENS = ['red', '10px', '20px', 'url("a;b{}")', "'x:y'", 'calc(1px + (2px * 3))', '#fff', 'rgba(0, 0, 0, .5)', 'solid', '"}"', "'\\''", 'url(a.png)', '1.5em', '-1px', '!important', 'var(--x, 1px)',
-          'no-repeat', '"a\\"b"', 'fn(a;b)', '100%', 'fn(b:c)', 'url(data:image/png;base64,AA==)', 'map-get((k: v), k)', 'f( ; : )']
+          'no-repeat', '"a\\"b"', 'fn(a;b)', '100%', 'fn(b:c)', 'url(data:image/png;base64,AA==)', 'map-get((k: v), k)', 'f( ; : )',
+          '"it\'s"', "'\"}'", "'say \"hi;\"'", '"a\'b{c\'d"']
 WS = ['', ' ', '\n', '\n  ', ' /* c; } { */ ', '\t', '/* a:b */', '\n\n', ' /**/ ', '/* x **/', '/***/', '/** { **/ ', '/* * / */']
 
 
